@@ -54,6 +54,9 @@ Proof.
   - unfold do_getcode. pose proof (get_obj_db m a). destruct (get_obj m a) as [m1 o]. destruct (obj_code m1 a o). exact H.
   - unfold do_getst. pose proof (get_obj_db m a). destruct (get_obj m a) as [m1 o]. destruct (obj_get_state m1 a o k). exact H.
   - unfold do_setbal. pose proof (get_obj_db m a). destruct (get_obj m a) as [m1 o]. exact H.
+  - unfold do_addbal. pose proof (get_obj_db m a) as H. destruct (get_obj m a) as [m1 o]. cbn [fst] in H.
+    destruct (z =? 0)%Z; [exact H|]. unfold do_setbal. pose proof (get_obj_db m1 a) as H1. destruct (get_obj m1 a) as [m2 o2]. cbn [fst] in H1.
+    change (s_db m2 = s_db m). rewrite H1. exact H.
   - unfold do_setnonce. pose proof (get_obj_db m a). destruct (get_obj m a) as [m1 o]. exact H.
   - unfold do_setst. pose proof (get_obj_db m a). destruct (get_obj m a) as [m1 o]. destruct (obj_get_state m1 a o k). exact H.
   - unfold do_addst. pose proof (get_obj_db m a). destruct (get_obj m a) as [m1 o]. exact H.
@@ -75,7 +78,8 @@ Lemma spec_frame s o x : proved_op o = true ->
   end.
 Proof.
   intro Hp. destruct o; try exact Logic.I; try discriminate; cbn [spec_step]; cbv zeta; try (repeat split; fail).
-  destruct (alookup N.eqb id (sp_snaps s)) as [[sv t]|]; repeat split.
+  - destruct (z =? 0)%Z; repeat split.
+  - destruct (alookup N.eqb id (sp_snaps s)) as [[sv t]|]; repeat split.
 Qed.
 
 (** ** one step, chain included *)
@@ -116,6 +120,7 @@ Proof.
     - apply step_getcode; exact S.
     - apply step_getst; exact S.
     - apply step_setbal; exact S.
+    - apply step_addbal; exact S.
     - apply step_setnonce; exact S.
     - apply step_setst; exact S.
     - apply step_addst; exact S.
